@@ -699,3 +699,61 @@ Example ws_inv_nonvacuous :
                      [WPickWs 0 (Some (0, 1)); WPickWs 1 (Some (1, 2)); WBase (OHave 7 3); WBase (OUnchoke 7);
                       WBase (OPick 7 (Some (3, false))); WAdvance 0] = Some s /\ get_owner s 1 = Some 1.
 Proof. eexists. split; vm_compute; reflexivity. Qed.
+
+(* ---------- findGaps is complete: every piece available for a web seed lies in a gap ---------- *)
+Lemma gaps_go_complete s : forall idx m ingap b, consec m idx (npieces s) -> (ingap = true -> b <= m) ->
+  forall i, avail_ws s i = true -> (m <= i < npieces s \/ (ingap = true /\ b <= i < m)) ->
+  exists g, In g (gaps_go s idx ingap b) /\ fst g <= i < snd g.
+Proof.
+  induction idx as [|x r IH]; intros m ingap b Hc Hb i Ha Hi; cbn [gaps_go consec] in *.
+  - subst m. destruct Hi as [Hi|[-> Hi]]; [lia|]. exists (b, npieces s). split; [left; reflexivity|cbn; lia].
+  - destruct Hc as [-> Hc]. destruct ingap; cbn [negb].
+    + destruct (avail_ws s m) eqn:Em; cbn [negb].
+      * destruct (m - b =? maxws s).
+        -- destruct (Z_lt_ge_dec i m) as [Hlt|Hge].
+           ++ destruct Hi as [Hi|[_ Hi]]; [lia|]. exists (b, m). split; [left; reflexivity|cbn; lia].
+           ++ assert (Hpre : m + 1 <= i < npieces s \/ (true = true /\ m <= i < m + 1)).
+              { destruct (Z.eq_dec i m); [right; split; [reflexivity|lia]|left; destruct Hi as [Hi|[_ Hi]]; lia]. }
+              destruct (IH (m + 1) true m Hc ltac:(intros; lia) i Ha Hpre) as (g & Hg & Hr).
+              exists g. split; [right; exact Hg|exact Hr].
+        -- specialize (Hb eq_refl). apply (IH (m + 1) true b Hc ltac:(intros; lia) i Ha). destruct Hi as [Hi|[_ Hi]]; [destruct (Z.eq_dec i m); [right; split; [reflexivity|lia]|left; lia]|right; split; [reflexivity|lia]].
+      * destruct (Z_lt_ge_dec i m) as [Hlt|Hge].
+        -- destruct Hi as [Hi|[_ Hi]]; [lia|]. exists (b, m). split; [left; reflexivity|cbn; lia].
+        -- assert (i <> m) by (intros ->; congruence).
+           assert (Hpre : m + 1 <= i < npieces s \/ (false = true /\ b <= i < m + 1)) by (left; destruct Hi as [Hi|[_ Hi]]; lia).
+           destruct (IH (m + 1) false b Hc ltac:(intros; discriminate) i Ha Hpre) as (g & Hg & Hr).
+           exists g. split; [right; exact Hg|exact Hr].
+    + destruct Hi as [Hi|[Hf _]]; [|discriminate]. destruct (avail_ws s m) eqn:Em.
+      * apply (IH (m + 1) true m Hc ltac:(intros; lia) i Ha). destruct (Z.eq_dec i m); [right; split; [reflexivity|lia]|left; lia].
+      * assert (i <> m) by (intros ->; congruence). apply (IH (m + 1) false b Hc ltac:(intros; discriminate) i Ha). left. lia.
+Qed.
+
+Lemma find_gaps_complete s i : in_range (base s) i = true -> avail_ws s i = true ->
+  exists g, In g (find_gaps s) /\ fst g <= i < snd g.
+Proof.
+  intros Hr Ha. unfold find_gaps. apply (gaps_go_complete s _ 0 false 0); [|intros; discriminate| |].
+  - unfold zseq, npieces, zlen. pose proof (consec_zseq (length (pieces (base s))) 0) as H. cbn [Z.of_nat Nat.add] in H. exact H.
+  - exact Ha.
+  - left. unfold in_range in Hr. unfold npieces. lia.
+Qed.
+
+(* C10 in web-seed mode: an idle unchoking peer that holds a piece which is neither done, being
+   written, requested from a peer nor reserved for a web seed always gets a pick *)
+Theorem ws_idle_holder_gets_a_pick s pe i : downloading_ws s = true ->
+  let P := get_peer (peers (base s)) pe in let p := get_piece (base s) i in
+  pe_downloading P = false -> pe_choking P = false ->
+  in_range (base s) i = true -> avail_ws s i = true -> In pe (p_having p) -> p_req p = [] ->
+  wpick_check s pe None = None.
+Proof.
+  intros Hd P p H1 H2 Hr Ha Hh Hq. unfold wpick_check. rewrite Hd. fold P. rewrite H1, H2.
+  destruct (find_gaps_complete s i Hr Ha) as (g & Hg & Hi).
+  assert (Hc : peer_cand s pe i = true).
+  { unfold peer_cand. fold p. rewrite Hq. cbn [length Nat.eqb andb]. apply mem_true. exact Hh. }
+  assert (Hcand : exists c, gap_cand s pe g = Some c).
+  { unfold gap_cand. destruct (find (peer_cand s pe) (rev (zrange (fst g) (snd g)))) as [c|] eqn:Ef; [eauto|].
+    exfalso. pose proof (find_none _ _ Ef i) as Hn. rewrite Hn in Hc; [discriminate|]. apply in_rev. rewrite rev_involutive. apply in_zrange. exact Hi. }
+  destruct Hcand as (c & Ec).
+  assert (Hin : In (gap_len g, c) (gap_cands s pe)).
+  { unfold gap_cands. apply in_flat_map. exists g. split; [exact Hg|]. rewrite Ec. left. reflexivity. }
+  destruct (gap_cands s pe); [destruct Hin|reflexivity].
+Qed.
